@@ -273,14 +273,15 @@ def split_guard(db, ctx):
                     val = lit_int(a["body"])
     ctx.ob("num_splits|C=0", val == 0, "ResultNode::num_splits(Mode::C) = %s (must be 0)" % val, fn=ns)
     si = db.one("split_into", "MorphemeList")
-    ok = False
-    for n, ps in walk(si.hir):
-        if n.get("k") == "If":
-            c = cmp_atom(n["cond"])
-            if c and c[0] == "Eq" and (lit_int(c[2]) == 0 or lit_int(c[1]) == 0) and "num_splits" in render(n["cond"]):
-                if not mentions(n["then"], is_call_to("ResultNode::split")) and "else" in n and mentions(n["else"], is_call_to("ResultNode::split")):
-                    ok = True
-    ctx.ob("split_into|zero-splits-never-splits", ok, "split_into calls ResultNode::split only in the num_splits != 0 branch: %s" % ok, fn=si)
+    from ..flow import reachable_at, is_local_from_call
+    isv = is_local_from_call("ResultNode::num_splits")
+    calls = [c for c, _ in walk(si.hir) if is_call(c) and path_ends(callee(c), "ResultNode::split")]
+    if not calls:
+        raise AnchorMissing("split_into: ResultNode::split call")
+    r0 = reachable_at(si.hir, calls[0]["id"], isv, 0)
+    r2 = reachable_at(si.hir, calls[0]["id"], isv, 2)
+    ctx.ob("split_into|zero-splits-never-splits", r0 is False and r2 is True,
+           "ResultNode::split is unreachable when num_splits == 0 (%s) and reachable when it is 2 (%s)" % (r0 is False, r2 is True), fn=si)
 
 
 # frozen table of user `unsafe` blocks in the library: function -> operations inside
